@@ -126,3 +126,82 @@ def install(M, L=None):
     def undo():
         M.spawn_context, M.MyProcessLine, M.ThreadLine = old
     return ctx, state, undo, VThreadLine
+
+
+# ---------------------------------------------------------------- CobaMultiprocessor on the virtual layer
+class ProcGlobals:
+    """Per-virtual-process copies of coba's process-global state (CobaContext logger / cacher / store /
+    learning_info).  Real worker processes each have their own; virtual ones share one interpreter, so the
+    scheduler swaps these in and out whenever it switches between tasks of different virtual processes."""
+    ATTRS = ("_logger", "_cacher", "_store", "_learning_info")
+
+    def __init__(self):
+        from coba.context import CobaContext, NullLogger, NullCacher
+        self.C = CobaContext; self.cur = 0
+        self.saved = {}
+        self.fresh = lambda: {"_logger": NullLogger(), "_cacher": NullCacher(), "_store": {}, "_learning_info": {}}
+
+    def proc_of(self, task):
+        n = task.name
+        return int(n[1:]) if n.startswith("W") and n[1:].isdigit() else 0
+
+    def switch(self, task):
+        p = self.proc_of(task)
+        if p == self.cur: return
+        self.saved[self.cur] = {a: getattr(self.C, a) for a in self.ATTRS}
+        new = self.saved.get(p) or self.fresh()
+        for a in self.ATTRS: setattr(self.C, a, new[a])
+        self.cur = p
+
+    def restore_main(self):
+        if self.cur != 0 and 0 in self.saved:
+            for a in self.ATTRS: setattr(self.C, a, self.saved[0][a])
+        self.cur = 0
+
+
+def install_coba():
+    """Virtualise coba.pipes.multiprocessing and coba.multiprocessing. Returns (vctx, undo)."""
+    import coba.pipes.multiprocessing as M
+    import coba.multiprocessing as CM
+    ctx, state, undo_m, VThreadLine = install(M)
+    state["multi"] = True
+    old = (CM.mp, CM.ThreadLine)
+    CM.mp = type("vmp", (), {"get_context": staticmethod(lambda kind=None: ctx)})
+    CM.ThreadLine = VThreadLine
+    def undo():
+        CM.mp, CM.ThreadLine = old
+        undo_m()
+    return ctx, undo
+
+
+def run_scheduled(fn, policy, max_steps=200000):
+    """Run fn() as the 'main' task of a fresh scheduler with coba's multiprocessing virtualised.
+    Returns (outcome dict, scheduler). outcome: {'value'| 'error', 'verdict'}"""
+    ctx, undo = install_coba()
+    s = vsched.Sched(policy, max_steps=max_steps); vsched.S = s
+    pg = ProcGlobals()
+    out = {}
+    def main():
+        try: out["value"] = fn()
+        except vsched._Aborted: raise
+        except BaseException as e: out["error"] = e
+    mt = s.spawn("main", main)
+    orig = s.choose
+    class Done(Exception): pass
+    def choose(en, sch):
+        if mt.done: raise Done()
+        t = orig(en, sch)
+        pg.switch(t)
+        return t
+    s.choose = choose
+    out["verdict"] = "ok"
+    try:
+        try: s.run()
+        except Done: pass
+    except vsched.Deadlock as d:
+        if not mt.done: out["verdict"] = "hang: %s" % (d,)
+    except vsched.TooLong:
+        out["verdict"] = "livelock"
+    finally:
+        s.abort(); pg.restore_main(); undo()
+    return out, s
